@@ -156,7 +156,11 @@ class GEXTest:
                     if bits >= smallest_modulus > 0:
                         break
 
-                    smallest_modulus, reconnect_failed = GEXTest._send_init(out, s, kex_group, kex, gex_alg, bits, bits, bits)
+                    modulus, reconnect_failed = GEXTest._send_init(out, s, kex_group, kex, gex_alg, bits, bits, bits)
+
+                    # Keep the smallest modulus the server handed out so far (a probe that is refused or gets no answer says nothing about the sizes already seen).
+                    if modulus > 0 and (smallest_modulus <= 0 or modulus < smallest_modulus):
+                        smallest_modulus = modulus
 
                 # If the smallest modulus is 2048 and the server is OpenSSH, then we may have triggered the fallback mechanism, which tends to happen in testing scenarios such as this but not in most real-world conditions (see X).  To better test this condition, we will do an additional check to see if the server supports sizes between 2048 and 4096, and consider this the definitive result.
                 openssh_test_updated = False
